@@ -230,7 +230,17 @@ func e2Ends(ns []*e2Node) bool {
 
 // ---------------------------------------------------------------------------
 
+func constArgsAll(x *e2Ctx, args []ssa.Value, d int) string {
+	var as []string
+	for _, a := range args {
+		as = append(as, x.pathOf(a, d+1))
+	}
+	return strings.Join(as, ",")
+}
+
 type e2Ctx struct {
+	// rendering options used by E6 (builders): name φs by their variable, show call arguments
+	namedPhis, callArgs, fullArgs bool
 	c       *Ctx
 	fn      *ssa.Function
 	lex     map[ssa.Value]bool // values that denote the tracked Lexer
@@ -775,7 +785,16 @@ func (x *e2Ctx) pathOf(v ssa.Value, d int) string {
 		return x.pathOf(t.X, d+1)
 	case *ssa.Slice:
 		return x.pathOf(t.X, d+1)
+	case *ssa.TypeAssert:
+		return x.pathOf(t.X, d+1) + ".(" + typeTag(t.AssertedType) + ")"
+	case *ssa.MakeMap:
+		return "make(map)"
+	case *ssa.MakeSlice:
+		return "make(" + x.pathOf(t.Len, d+1) + ")"
 	case *ssa.Phi:
+		if x.namedPhis && t.Comment != "" {
+			return "φ" + t.Comment
+		}
 		var ps []string
 		seen := map[string]bool{}
 		for _, e := range t.Edges {
@@ -799,11 +818,37 @@ func (x *e2Ctx) pathOf(v ssa.Value, d int) string {
 		if sf := cc.StaticCallee(); sf != nil && inUio(sf) && strings.HasPrefix(sf.Name(), "Read") {
 			return "prev" + strings.TrimPrefix(sf.Name(), "Read")
 		}
+		constArgs := func(args []ssa.Value) string {
+			if !x.callArgs {
+				return ""
+			}
+			var as []string
+			for _, a := range args {
+				if k, ok := optCodeConst(a); ok {
+					as = append(as, fmt.Sprint(k))
+				} else if x.fullArgs {
+					as = append(as, x.pathOf(a, d+1))
+				}
+			}
+			return strings.Join(as, ",")
+		}
+		if sf := cc.StaticCallee(); sf != nil && sf.Signature.Recv() != nil && len(cc.Args) > 0 {
+			return x.pathOf(cc.Args[0], d+1) + "." + sf.Name() + "(" + constArgs(cc.Args[1:]) + ")"
+		}
 		if sf := cc.StaticCallee(); sf != nil && len(cc.Args) > 0 {
+			if x.callArgs {
+				return sf.Name() + "(" + constArgsAll(x, cc.Args, d) + ")"
+			}
 			return x.pathOf(cc.Args[0], d+1) + "." + sf.Name() + "()"
 		}
+		if sf := cc.StaticCallee(); sf != nil {
+			if sf.Pkg != nil {
+				return sf.Pkg.Pkg.Name() + "." + sf.Name() + "()"
+			}
+			return sf.Name() + "()"
+		}
 		if cc.IsInvoke() {
-			return x.pathOf(cc.Value, d+1) + "." + cc.Method.Name() + "()"
+			return x.pathOf(cc.Value, d+1) + "." + cc.Method.Name() + "(" + constArgs(cc.Args) + ")"
 		}
 	case *ssa.Global:
 		return "global:" + t.Name()
